@@ -40,7 +40,8 @@ CONFIG = {
                   "priority records may differ, the no-panic theorem does not depend on it). Trusted: Lean kernel, the hand-written models, the sampled "
                   "correspondence, the extractor.",
     "technique": "Lean 4 proof (panic-explicit Result-monad model, invariants) + regenerated panic-site inventory + model/code differential correspondence under recover",
-    "components": [{"name": "dnsfuzz", "timeout": {"quick": 300, "thorough": 1500}}],
+    "components": [{"name": "dnsfuzz", "timeout": {"quick": 300, "thorough": 1500}},
+                   {"name": "dnsfront", "timeout": {"quick": 60, "thorough": 120}}],
     "rule": "Every srv message is delivered through the real NetConnectionServerCommunicator.handleRequest (result IGN = onMessage returned (nil, err), "
             "DROP = (msg, err), nothing sent either way). dnsfuzz srv/net (handler): 167 lookup labels (ordinary host names, every command letter "
             "both cases alone / +1 char / bad id / unknown id / live id) x 10 query types x sender stranger/owner x unsigned / TSIG validated / TSIG not "
